@@ -2,7 +2,7 @@
 vt.monitors_transform (explicit loop over multi-indices and snapshots)."""
 import numpy as np
 
-from .. import gen, monitors_transform, monitors_basis
+from .. import gen, probe, monitors_transform, monitors_basis
 from ..drive import call
 from ..shard import Workload
 from ._common import arm_light
@@ -180,7 +180,21 @@ def w_basis(ctx, rng, idx):
     if rng.random() < 0.08:
         d, m, x, bl = square_data_with_linear_functionals(rng, bl)
     ctx.describe({'op': 'basis_decomposition/gram', 'd': d, 'm': m, 'modes': [[type(f).__name__ for f in fl] for fl in bl]})
-    call('transform.basis_decomposition', tr.basis_decomposition, x, bl, prop=P)
+    ok_, psi_ = call('transform.basis_decomposition', tr.basis_decomposition, x, bl, prop=P)
+    if ok_ and rng.random() < 0.3:
+        # the owner of a transformed data tensor edits its cores in place (per-snapshot weights on the last core, a rescaled first core):
+        # its own object - later constructions, for the same number of snapshots in particular, must not know
+        with probe.oracle():
+            for c_ in psi_.cores:
+                if isinstance(c_, np.ndarray) and c_.flags.writeable and c_.dtype.kind == 'f':
+                    c_ *= float(rng.uniform(0.2, 0.7))
+            if psi_.cores[-1].flags.writeable and psi_.cores[-1].dtype.kind == 'f':
+                psi_.cores[-1][...] = psi_.cores[-1] * rng.uniform(0.5, 2.0, size=psi_.cores[-1].shape)
+        x3 = gen.data_matrix(rng, (d, m))
+        call('transform.basis_decomposition', tr.basis_decomposition, x3, bl, prop=P, tags=['after_caller_edited_earlier_result'])
+        phi_ = [f for (_, f) in SCALAR_FUNS[:6]][:int(rng.integers(1, 4))]
+        call('transform.coordinate_major', tr.coordinate_major, x3, phi_, prop=P, tags=['after_caller_edited_earlier_result'])
+        call('transform.function_major', tr.function_major, x3, phi_, prop=P, tags=['after_caller_edited_earlier_result'])
     for k in range(len(bl)):
         call('transform.basis_decomposition', tr.basis_decomposition, x, bl, prop=P, single_core=k)
     m2 = int(rng.integers(1, 7))
